@@ -369,6 +369,8 @@ def r12(ctx):
 
 
 def run(ctx):
+    from . import C09
+    C09.r10(ctx)  # a released burst of udp_capacity datagrams fits: the slot of a consumed parked datagram is free again at once
     r12(ctx)
     r11(ctx)
     scan_rule(ctx, "C08")
